@@ -14,60 +14,251 @@ LEVEL = "exploration"
 NICS = '{"nicA", "nicB", "nicC"}'
 
 
+HOST_MAC = "02:00:00:00:00:01"     # vh.OwnMAC: the NIC MAC of every producer's universe
+
+
 def frames_remap(r, f):
     """-frames mode has no call to compare with: name the purge probe defect by its signature."""
     flat = r.get("flat") or {}
     if f["key"] == "frame:arp.hlenplen" and flat.get("ethDst", "").endswith(":06:04") and flat.get("kind") == "arpreq":
         return "C07:KF_PurgeProbeHlenPlen"
+    if f["key"] == "frame:mcast6mac" and flat.get("kind") == "na" and flat.get("ipDst") == "ff02::1":
+        try:
+            if int(flat.get("ethDst", "01")[:2], 16) & 1 == 0:
+                # icmp6spoof.go:66-69: a hunted host without a known IPv6 address is sent the forged NA with the
+                # all-nodes address on its own unicast MAC (deliberate; RFC 6085 allows it, the statement does not)
+                return "C07:KF_NAToAllNodesOnUnicastMAC"
+        except ValueError:
+            pass
     return "C07:" + f["key"]
 
 
-def history_frames(ctx, cov):
-    """Frames emitted by the session along histories of the Hosts family (purge probes of C04):
-    hostsdrv -frames writes them, wiredrv -frames checks each with vh.CheckWellFormed."""
+# ---------------------------------------------------------------------------------------------
+# Part 2 of the design: frames emitted along the histories of the other families.
+# A producer runs another family's driver (never edited here) on a modest number of seeded histories with
+# `-frames <file>`; every recorded frame is decoded by wiredrv -frames (vh.CheckWellFormed: complete,
+# length-consistent, checksums, Ethernet source = host NIC MAC, 33:33 mapping, NDP hop limit) and then judged
+# against what the producing handler is meant to emit (expect_* below).  Producer trouble is never a verdict:
+# it is recorded in coverage.skipped.
+
+def _hex4(ip):
     try:
-        import hosts_common
-        hb = vlib.go_build(ctx, "hostsdrv")
-    except Exception as ex:  # the other family's driver is not ours to fix
-        cov["history_frames"] = {"skipped": "hostsdrv unavailable: %s" % str(ex)[:200]}
-        return 0, 0
-    rng = random.Random(ctx.seed)
+        return "".join("%02x" % int(x) for x in ip.split("."))
+    except ValueError:
+        return None
+
+
+def expect_hosts(flat):
+    out = []
+    if flat.get("kind") not in ("arpreq", "ns", "echoreq"):
+        out.append(("kind", "purge probe of kind %s" % flat.get("kind")))
+    return out
+
+
+def expect_arp(flat):
+    # forged requests / replies legitimately carry the router's or a client's address as sender: that is the spoof
+    out = []
+    if flat.get("proto") != "arp":
+        out.append(("proto", "the ARP handler emitted a %s frame" % flat.get("proto")))
+    # a reply of the handler always claims "<ip> is at the host NIC MAC" (arp.go:331,358); requests may carry the
+    # router's real MAC as sender (spoof.go:103 restores the client's cache when a hunt ends)
+    if flat.get("kind") == "arpreply" and flat.get("f.sha") != flat.get("ethSrc"):
+        out.append(("reply.sha", "forged ARP reply names %s, not the host NIC MAC, as sender hardware address" % flat.get("f.sha")))
+    return out
+
+
+def expect_ndp(flat):
+    out = []
+    kind = flat.get("kind")
+    if flat.get("proto") != "icmp6" or kind not in ("na", "ns", "rs", "ra", "echoreq"):
+        out.append(("kind", "the ICMPv6 handler emitted %s / %s" % (flat.get("proto"), kind)))
+    if kind == "na" and flat.get("f.tlla") != flat.get("ethSrc"):     # icmp6spoof.go:97: target = router address at OUR MAC
+        out.append(("na.tlla", "forged neighbour advertisement carries target link-layer address %s, not the host NIC MAC" % flat.get("f.tlla")))
+    if kind == "na" and flat.get("f.override") != "1":
+        out.append(("na.override", "forged neighbour advertisement without the override flag"))
+    if kind in ("na", "ns") and flat.get("f.target") in (None, "::"):
+        out.append(("nd.target", "%s without target address" % kind))
+    if kind == "ns" and flat.get("f.slla") != flat.get("ethSrc"):
+        out.append(("ns.slla", "neighbour solicitation source link-layer address option is %s" % flat.get("f.slla")))
+    return out
+
+
+def expect_dhcp(flat):
+    out = []
+    kind = flat.get("kind")
+    if kind == "arpreq":
+        return out
+    if kind != "dhcp4":
+        return [("kind", "the DHCP handler emitted a %s frame" % kind)]
+    op, mt = flat.get("f.op"), flat.get("f.msgtype")
+    ports = (flat.get("sport"), flat.get("dport"))
+    if op == "2":                       # server replies
+        if ports != ("67", "68"):
+            out.append(("reply.ports", "BOOTREPLY on ports %s->%s" % ports))
+        if mt not in ("2", "5", "6"):
+            out.append(("reply.msgtype", "BOOTREPLY with message type %s" % mt))
+        if flat.get("f.opt54") is None or len(flat.get("f.opt54", "")) != 8:
+            out.append(("reply.serverid", "server reply without a 4 byte server identifier"))
+        if mt in ("2", "5"):
+            if flat.get("f.yiaddr") in (None, "0.0.0.0"):
+                out.append(("reply.yiaddr", "OFFER/ACK with yiaddr %s" % flat.get("f.yiaddr")))
+            for o in ("f.opt51", "f.opt1"):
+                if flat.get(o) is None:
+                    out.append(("reply.options", "OFFER/ACK without option %s" % o[5:]))
+        elif mt == "6" and flat.get("f.yiaddr") != "0.0.0.0":
+            out.append(("reply.yiaddr", "NAK with yiaddr %s" % flat.get("f.yiaddr")))
+    elif op == "1":                     # forged client messages: DISCOVER storm, DECLINE, RELEASE
+        if ports != ("68", "67"):
+            out.append(("forged.ports", "BOOTREQUEST on ports %s->%s" % ports))
+        if mt not in ("1", "4", "7"):
+            out.append(("forged.msgtype", "forged client message of type %s" % mt))
+        if mt == "1" and flat.get("f.opt55") is None:
+            out.append(("forged.discover", "DISCOVER without parameter request list"))
+        if mt == "4" and (flat.get("f.opt54") is None or flat.get("f.opt50") is None):
+            out.append(("forged.decline", "DECLINE without server identifier / requested address"))
+        if mt == "7" and flat.get("f.opt54") is None:
+            out.append(("forged.release", "RELEASE without server identifier"))
+    if flat.get("f.dups") not in (None, "0"):
+        out.append(("options.duplicate", "an option occurs twice: %s" % flat.get("f.codes")))
+    return out
+
+
+def produce_hosts(ctx, rng, frames_path):
+    import hosts_common
+    hb = vlib.go_build(ctx, "hostsdrv")
     n, ln = (60, 40) if ctx.quick else (600, 60)
-    scripts = [hosts_common.random_script(rng, "notify", ln) for _ in range(n)]
-    sp, tp, fp = (os.path.join(ctx.scratch, x) for x in ("wire-h.script", "wire-h.trace", "wire-h.frames"))
-    hosts_common.write_script(sp, scripts)
-    hosts_common.drive(ctx, hb, sp, tp, stutter=0.1, frames=fp)
-    nframes = sum(1 for _ in open(fp))
-    if nframes == 0:
-        cov["history_frames"] = {"histories": n, "frames": 0}
-        return 0, 0
+    sp, tp = os.path.join(ctx.scratch, "wire-h.script"), os.path.join(ctx.scratch, "wire-h.trace")
+    hosts_common.write_script(sp, [hosts_common.random_script(rng, "notify", ln) for _ in range(n)])
+    hosts_common.drive(ctx, hb, sp, tp, stutter=0.1, frames=frames_path)
+    return n
+
+
+def _produce_hunt(ctx, rng, frames_path, sub, gen):
+    import hunt_common
+    hb = hunt_common.build(ctx)
+    n, ln = (250, 30) if ctx.quick else (2500, 40)
+    sp, tp = os.path.join(ctx.scratch, "wire-%s.script" % sub), os.path.join(ctx.scratch, "wire-%s.trace" % sub)
+    hunt_common.write_script(sp, [gen(rng, ln) for _ in range(n)])
+    st = hunt_common.drive(ctx, hb, sub, sp, tp, frames=frames_path)
+    if st.get("infra"):
+        raise vlib.InfraError("huntdrv %s: %s" % (sub, st["infra"]))
+    return n
+
+
+def produce_hunt_arp(ctx, rng, frames_path):
+    import hunt_common
+    return _produce_hunt(ctx, rng, frames_path, "arp", hunt_common.arp_random_script)
+
+
+def produce_hunt_ndp(ctx, rng, frames_path):
+    import hunt_common
+    return _produce_hunt(ctx, rng, frames_path, "ndp", hunt_common.ndp_random_script)
+
+
+def produce_dhcp(ctx, rng, frames_path):
+    import dhcp_common
+    db = dhcp_common.build_driver(ctx)
+    per, ln = (12, 30) if ctx.quick else (120, 40)
+    lines = []
+    n = 0
+    for shape in (2, 3, 4):
+        for mode in dhcp_common.MODES:
+            hs = [dhcp_common.random_script(rng, shape, ln) for _ in range(per)]
+            hs += [dhcp_common.lifecycle_script(rng, shape, ln) for _ in range(per // 2)]
+            lines += dhcp_common.script_of(hs, [shape], mode, start_id=n)
+            n += len(hs)
+    dhcp_common.drive(ctx, db, lines, "wire-dhcp", frames=frames_path)
+    return n
+
+
+# name, producer, expectation, host NIC MAC.  One more producer (e.g. the ping waiters of the conc family) = one line.
+PRODUCERS = [
+    ("hosts", produce_hosts, expect_hosts, HOST_MAC),
+    ("hunt-arp", produce_hunt_arp, expect_arp, HOST_MAC),
+    ("hunt-ndp", produce_hunt_ndp, expect_ndp, HOST_MAC),
+    ("dhcp", produce_dhcp, expect_dhcp, HOST_MAC),
+]
+EXPECT = {name: exp for name, _, exp, _ in PRODUCERS}
+
+
+def frame_findings(producer, r):
+    """All property-level findings of one decoded frame: (key, what)."""
+    out = []
+    for f in r.get("findings", []):
+        if f["level"] == "prop":
+            key = frames_remap(r, f)
+            if not key.startswith("C07:KF_"):
+                key = "C07:history:%s:%s" % (producer, f["key"].split(":", 1)[-1])
+            out.append((key, f["what"]))
+    if not out or all(k.endswith(("ethsrc", "mcast6mac", "ndphop")) for k, _ in out):   # decodable: judge the content
+        for field, what in EXPECT[producer](r.get("flat") or {}):
+            out.append(("C07:history:%s:%s" % (producer, field), what))
+    return out
+
+
+def decode_frames(ctx, binary, frames_path, mac, tag):
+    out = os.path.join(ctx.scratch, "wire-%s.res" % tag)
+    p = vlib.run_driver(ctx, binary, ["-frames", frames_path, "-flat", "-out", out, "-mac", mac], timeout=900)
+    return vlib.read_ndjson(out), json.loads(p.stdout.strip().splitlines()[-1])
+
+
+def history_frames(ctx, cov):
     binary = wc.build_driver(ctx)
-    out = os.path.join(ctx.scratch, "wire-h.res")
-    p = vlib.run_driver(ctx, binary, ["-frames", fp, "-out", out, "-mac", "02:00:00:00:00:01"], timeout=600)
-    summary = json.loads(p.stdout.strip().splitlines()[-1])
-    results = vlib.read_ndjson(out)
-    prop = {}
+    hist = cov.setdefault("history_frames", {})
+    skipped = cov.setdefault("skipped_producers", {})
+    total = 0
+    for name, produce, _, mac in PRODUCERS:
+        fp = os.path.join(ctx.scratch, "wire-%s.frames" % name)
+        try:
+            nh = produce(ctx, random.Random(ctx.seed * 7919 + len(name)), fp)
+            nframes = sum(1 for _ in open(fp))
+        except Exception as ex:       # the other family's driver / module is not ours to fix
+            skipped[name] = str(ex)[:300]
+            vlib.log("  note: producer %s skipped: %s" % (name, str(ex)[:200]))
+            continue
+        if nframes == 0:
+            hist[name] = {"histories": nh, "frames": 0, "kinds": {}}
+            continue
+        results, summary = decode_frames(ctx, binary, fp, mac, name)
+        found = {}
+        notes = {}
+        for r in results:
+            for key, what in frame_findings(name, r):
+                found.setdefault(key, []).append((r, what))
+            for f in r.get("findings", []):
+                if f["level"] == "note":
+                    notes[f["key"]] = notes.get(f["key"], 0) + 1
+        for key, lst in sorted(found.items()):
+            r, what = lst[0]
+            one = os.path.join(ctx.scratch, "wire-one.hex")
+            open(one, "w").write(r["frame"] + "\n")
+            again, _ = decode_frames(ctx, binary, one, mac, "one")     # reproduce: decode the recorded bytes once more
+            if not any(k == key for a in again for k, _ in frame_findings(name, a)):
+                raise vlib.InfraError("frame finding %s did not reproduce" % key)
+            replay = {"mode": "frames", "producer": name, "key": key, "frame": r["frame"], "mac": mac, "k": 1}
+            if ctx.report(key, "frame emitted along a %s history: %s" % (name, what), replay) == "known":
+                for _ in lst[1:]:
+                    ctx.report(key, what, replay)
+        hist[name] = {"histories": nh, "frames": nframes, "kinds": summary.get("kinds", {}),
+                      "findings": {k: len(v) for k, v in found.items()}, "notes": notes}
+        total += nframes
+    return total, len(hist)
+
+
+def replay_frames(ctx, rp, path):
+    binary = wc.build_driver(ctx)
+    one = os.path.join(ctx.scratch, "replay.hex")
+    open(one, "w").write(rp["frame"] + "\n")
+    results, _ = decode_frames(ctx, binary, one, rp.get("mac", HOST_MAC), "replay")
+    producer = rp.get("producer", "hosts")
     for r in results:
-        for f in r.get("findings", []):
-            if f["level"] == "prop":
-                prop.setdefault(frames_remap(r, f), []).append((r, f))
-    for key, lst in sorted(prop.items()):
-        r, f = lst[0]
-        # reproduce: decode the recorded bytes a second time
-        one = os.path.join(ctx.scratch, "wire-h.one")
-        open(one, "w").write(r["frame"] + "\n")
-        out1 = os.path.join(ctx.scratch, "wire-h.one.res")
-        vlib.run_driver(ctx, binary, ["-frames", one, "-out", out1, "-mac", "02:00:00:00:00:01"])
-        again = vlib.read_ndjson(out1)
-        if not any(frames_remap(a, g) == key for a in again for g in a.get("findings", [])):
-            raise vlib.InfraError("frame finding %s did not reproduce" % key)
-        replay = {"mode": "frames", "key": key, "frame": r["frame"], "mac": "02:00:00:00:00:01", "k": 1}
-        if ctx.report(key, "frame emitted along a session history: " + f["what"], replay) == "known":
-            for _ in lst[1:]:
-                ctx.report(key, f["what"], replay)
-    cov["history_frames"] = {"histories": n, "frames": nframes, "kinds": summary.get("kinds", {}),
-                             "findings": {k: len(v) for k, v in prop.items()}}
-    return nframes, len(summary.get("kinds", {}))
+        for key, what in frame_findings(producer, r):
+            if key == rp["key"]:
+                print("VIOLATION property=%s replay=%s" % (ctx.pid, path))
+                vlib.log("  reproduced: %s" % what)
+                return 1
+    print("not reproduced")
+    return 0
 
 
 def run(ctx):
@@ -96,8 +287,9 @@ def run(ctx):
                 "called k times with seeded concrete addresses on a session over a recording connection; every recorded frame is decoded "
                 "by the independent reference decoder and compared with the frame the specification expects (property level) and with "
                 "the mechanism model's frame; distinct = distinct vectors by digest; non-trivial = valid arguments for which the "
-                "statement demands a frame.  Frames recorded along session histories of the Hosts family are checked with the "
-                "call-independent predicates only",
+                "statement demands a frame.  Frames recorded along the histories of the other families (Hosts purge probes, ARP "
+                "and ICMPv6 hunt handlers, DHCP server: coverage.history_frames, counted per producer and kind) are decoded by the same "
+                "reference decoder, checked with the call-independent predicates and with what the producing handler is meant to emit",
         "samples": wc.sample_vectors([v for v in vecs if v.get("clean")], 4),
         "functions": functions, "instances_per_case": k, "drift": drift, "notes": notes,
         "dns_hook_present": bool(summary.get("dnshook")), "skipped": skipped,
@@ -118,4 +310,6 @@ def run(ctx):
 
 def replay(ctx, path):
     obj = json.load(open(path))
-    return wc.replay(ctx, path, remap=frames_remap if obj["replay"]["mode"] == "frames" else None)
+    if obj["replay"]["mode"] == "frames":
+        return replay_frames(ctx, obj["replay"], path)
+    return wc.replay(ctx, path)
